@@ -145,6 +145,11 @@ func (s *SwitchPool) GetByID(ctx context.Context, client client.VPC, id string) 
 	v, ok := s.cache.Get(id)
 	if !ok {
 		v, err, _ := s.g.Do(id, func() (interface{}, error) {
+			// fill the cache inside the flight and only if it is still empty, a fill
+			// landing after Block() would make an exhausted vSwitch eligible again
+			if v, ok := s.cache.Get(id); ok {
+				return v, nil
+			}
 			resp, err := client.DescribeVSwitchByID(ctx, id)
 			if err != nil {
 				return nil, fmt.Errorf("error get vSwitch %s, %w", id, err)
@@ -156,15 +161,13 @@ func (s *SwitchPool) GetByID(ctx context.Context, client client.VPC, id string) 
 				IPv4CIDR:         resp.CidrBlock,
 				IPv6CIDR:         resp.Ipv6CidrBlock,
 			}
+			s.cache.Add(sw.ID, sw, s.ttl)
 			return sw, nil
 		})
 		if err != nil {
 			return nil, err
 		}
-		vsw := v.(*Switch)
-		s.cache.Add(vsw.ID, vsw, s.ttl)
-
-		return vsw, nil
+		return v.(*Switch), nil
 	}
 	sw := v.(*Switch)
 	return sw, nil
